@@ -1,0 +1,18 @@
+//go:build verif
+
+// Contracts for contract-based deductive verification (checked by /verif/govc).
+// This file is comment-only and compiled only with the build tag "verif".
+
+package main
+
+//@ func parseEpcLimit safety=C14
+//@   let kc = epcLimitKey + "/container." + ctr
+//@   let kp = epcLimitKey + "/pod"
+//@   let present = kc in annotations || kp in annotations || epcLimitKey in annotations
+//@   let eff = kc in annotations ? annotations[kc] : (kp in annotations ? annotations[kp] : annotations[epcLimitKey])
+//@   ensures[C18] !present ==> result0 == 0 && result1 == nil
+//@   ensures[C18] present ==> (result1 == nil) == (strconv.ParseUint(eff, 10, 64).1 == nil)
+//@   ensures[C18] present && result1 == nil ==> result0 == strconv.ParseUint(eff, 10, 64).0
+//@ loop 0 in parseEpcLimit at "range []string"
+//@   invariant -1 <= rangeindex && rangeindex < 3
+//@   invariant forall j int :: 0 <= j && j <= rangeindex ==> !($t5[j] in annotations)
